@@ -9,6 +9,7 @@
           on the new process)                                                                            (Notice)
      old: transfer(): fd + unread read buffer travel over conn.sock; new: transferNewConn builds the
           connection around them (newServerConnection copies the bytes into its read buffer)            (Transfer)
+     new: transferFindListen finds, by address, the listener the received socket belongs to                 (Lookup)
      a stream opened by the old process before the move answers through transferWrite                   (Reply)
      old: leaves after its waiting time; every socket it still owns dies                                (OldExit)
 
@@ -26,31 +27,58 @@
      ReplyTwice           ... or is written by both processes
      ExitBeforeTransfer   the old process leaves while it still owns a transferable connection
      ForwardedResponseConsumesRoute   the new process forgets where to deliver forwarded answers after the first one
-                          (network.transferFindConnection: the map entry must survive every forwarded write) *)
+                          (network.transferFindConnection: the map entry must survive every forwarded write)
+
+   The listener a received socket belongs to (network.transferFindListen) is found by ADDRESS: the new process knows
+   the local address of the connection and how its own listeners are written in the configuration, nothing else.
+   `bind` is how the listener address is written, `via` how the client reached it:
+     bind  "ip4" 127.0.0.1:p | "any4" 0.0.0.0:p | "any6" [::]:p | "ip6" [::1]:p          via  "ip4" | "ip6"
+   A listener written with an unspecified address is ONE dual-stack socket (net.Listen("tcp", ...), bindv6only = 0):
+   it takes IPv4 and IPv6 clients, whichever of the two wildcards was written; the local address of the accepted
+   connection is the concrete address the client connected to, in the client's family.  Lookup is the new process's
+   own step between the arrival of the socket and the first byte it serves.  Named defects:
+     LookupOwnFamilyWildcard   only the wildcard of the connection's own address family is tried after the local address
+     LookupLocalOnly           only the local address of the connection is tried
+
+   When the upstream answers a request in flight is part of the picture too (`release`): after the move (the answer is
+   forwarded by the old process through transferWrite), or while the socket is on its way ("wire": the old process has
+   stopped writing to the socket - connection.needTransfer -, keeps the answer in the connection's write queue and
+   forwards it the moment the new process has told it the id of its connection: QueueReply, then Reply).  Named defect:
+     PublishedBeforeComplete   the new process hands its connection to the transfer server before the connection can
+                               write: an answer forwarded at once is dropped *)
 EXTENDS Integers, Sequences, FiniteSets, TLC, Json
 
 CONSTANTS Protos, MaxReq, MaxInflight, MaxDone, Defects, EmitCases
 ReqLen == 4
+Binds == {"ip4", "any4", "any6", "ip6"}
+Vias == {"ip4", "ip6"}
+Wildcards == {"any4", "any6"}
+\* the clients a listener takes: a wildcard listener is dual stack, a concrete address takes its own family only
+Reaches(b, v) == b \in Wildcards \/ b = v
 SeqTo(n) == [i \in 1..n |-> i]
 
 VARIABLES proto, owner, stop, closeFlag, oldAlive,
           k,          \* number of the request the client is sending / will send next
           sent,       \* bytes of request k written by the client
           rbuf,       \* bytes the owner has received and not consumed
-          stream,     \* per request: "none" | "open" | "part" (reply partly written) | "done"
+          stream,     \* per request: "none" | "open" | "part" (reply partly written) | "queued" (reply in the write queue of the
+                      \* old process, socket on its way) | "done"
           by,         \* per request: the process that decoded it
           replies,    \* per request: complete replies seen by the client
           told,       \* the client was told to stop using the connection (Connection: close)
           repliedAfterNotice, lost, killed, follow, fresh,
           route,      \* the new process can still deliver what the old process forwards for the moved connection
-          order       \* the order in which the upstream answers the requests in flight at the move: "fifo" | "lifo"
+          order,      \* the order in which the upstream answers the requests in flight at the move: "fifo" | "lifo"
+          bind, via,  \* how the listener address is written / how the client reached it (constant through a behaviour)
+          orphan,     \* the socket left the old process and no listener of the new process took it
+          release     \* when the upstream answers the first request in flight: "moved" (after the move) | "wire" (socket on its way)
 
-vars == <<proto, owner, stop, closeFlag, oldAlive, k, sent, rbuf, stream, by, replies, told, repliedAfterNotice, lost, killed, follow, fresh, route, order>>
+vars == <<proto, owner, stop, closeFlag, oldAlive, k, sent, rbuf, stream, by, replies, told, repliedAfterNotice, lost, killed, follow, fresh, route, order, bind, via, orphan, release>>
 
 Reqs == 1..MaxReq
 Transferable == proto = "bolt"
 Held == owner \in {"old", "new"}
-InFlight == {r \in Reqs : stream[r] \in {"open", "part"}}
+InFlight == {r \in Reqs : stream[r] \in {"open", "part", "queued"}}
 Busy == sent > 0 \/ InFlight # {}
 
 Init == /\ proto \in Protos /\ owner = "old" /\ stop = "no" /\ closeFlag = FALSE /\ oldAlive = TRUE
@@ -58,8 +86,9 @@ Init == /\ proto \in Protos /\ owner = "old" /\ stop = "no" /\ closeFlag = FALSE
         /\ stream = [r \in Reqs |-> "none"] /\ by = [r \in Reqs |-> "none"] /\ replies = [r \in Reqs |-> 0]
         /\ told = FALSE /\ repliedAfterNotice = FALSE /\ lost = FALSE /\ killed = FALSE /\ follow = "none" /\ fresh = FALSE
         /\ route = TRUE /\ order = "fifo"
+        /\ bind \in Binds /\ via \in Vias /\ Reaches(bind, via) /\ orphan = FALSE /\ release = "moved"
 
-U(vs) == UNCHANGED vs
+U(vs) == UNCHANGED <<vs, bind, via, orphan, release>>
 
 (* ---- client *)
 \* HTTP/1 is ping-pong; an xprotocol connection is multiplexed: up to MaxInflight requests wait for their answers
@@ -95,10 +124,17 @@ PartReply(r) == /\ stream[r] = "open" /\ Alive(by[r]) /\ Held /\ InFlight = {r} 
                 /\ stream' = [stream EXCEPT ![r] = "part"] /\ fresh' = FALSE /\ UNCHANGED <<route, order>>
                 /\ U(<<proto, owner, stop, closeFlag, oldAlive, k, sent, rbuf, by, replies, told, repliedAfterNotice, lost, killed, follow>>)
 
-Reply(r) == /\ stream[r] \in {"open", "part"} /\ Alive(by[r]) /\ Held
+\* the upstream answers while the socket is on its way: the answer waits in the old process (the runs let one through)
+QueueReply(r) == /\ owner = "wire" /\ release = "wire" /\ stream[r] = "open" /\ by[r] = "old" /\ oldAlive
+                 /\ ~\E q \in Reqs : stream[q] = "queued"
+                 /\ stream' = [stream EXCEPT ![r] = "queued"] /\ fresh' = FALSE /\ UNCHANGED <<route, order>>
+                 /\ U(<<proto, owner, stop, closeFlag, oldAlive, k, sent, rbuf, by, replies, told, repliedAfterNotice, lost, killed, follow>>)
+
+Reply(r) == /\ stream[r] \in {"open", "part", "queued"} /\ Alive(by[r]) /\ Held
             /\ stream' = [stream EXCEPT ![r] = "done"]
             /\ LET moved == by[r] = "old" /\ owner = "new"
                    n == CASE moved /\ "LostReplyAfterMove" \in Defects -> 0
+                          [] moved /\ stream[r] = "queued" /\ "PublishedBeforeComplete" \in Defects -> 0
                           [] moved /\ ~route -> 0
                           [] moved /\ "ReplyTwice" \in Defects -> 2
                           [] OTHER -> 1
@@ -117,22 +153,40 @@ Reply(r) == /\ stream[r] \in {"open", "part"} /\ Alive(by[r]) /\ Held
 (* ---- the switch *)
 Stop == /\ stop = "no" /\ stop' = "called" /\ fresh' = TRUE
         /\ follow' \in {"next", "close"} /\ order' \in {"fifo", "lifo"} /\ route' = route
+        /\ release' \in {"moved", "wire"}
         /\ Cardinality({r \in Reqs : stream[r] = "done"}) <= MaxDone
-        /\ U(<<proto, owner, closeFlag, oldAlive, k, sent, rbuf, stream, by, replies, told, repliedAfterNotice, lost, killed>>)
+        /\ UNCHANGED <<proto, owner, closeFlag, oldAlive, k, sent, rbuf, stream, by, replies, told, repliedAfterNotice, lost, killed, bind, via, orphan>>
 
 Notice == /\ stop = "called" /\ owner = "old"
           /\ stop' = "seen" /\ closeFlag' = (proto = "http1") /\ fresh' = FALSE /\ UNCHANGED <<route, order>>
           /\ U(<<proto, owner, oldAlive, k, sent, rbuf, stream, by, replies, told, repliedAfterNotice, lost, killed, follow>>)
 
+\* old: the socket and the unread bytes leave through conn.sock; the read loop of the old process has ended, the new
+\* process has not built its connection yet: nobody serves the socket until Lookup (the old process waits for its answer)
 Transfer == /\ stop = "seen" /\ Transferable /\ owner = "old" /\ oldAlive
             /\ ~\E r \in Reqs : stream[r] = "part"       \* the write loop hands over between two writes
-            /\ stop' = "moved"
-            /\ IF "NewDropsBuffered" \in Defects /\ rbuf # <<>>
-                 THEN owner' = "closed" /\ lost' = TRUE /\ rbuf' = rbuf
-                 ELSE /\ owner' = "new" /\ lost' = lost
-                      /\ rbuf' = IF "BufferNotShipped" \in Defects THEN <<>> ELSE rbuf
-            /\ fresh' = FALSE /\ route' = TRUE /\ order' = order
-            /\ U(<<proto, closeFlag, oldAlive, k, sent, stream, by, replies, told, repliedAfterNotice, killed, follow>>)
+            /\ owner' = "wire"
+            /\ rbuf' = IF "BufferNotShipped" \in Defects THEN <<>> ELSE rbuf
+            /\ fresh' = FALSE /\ UNCHANGED <<route, order>>
+            /\ U(<<proto, stop, closeFlag, oldAlive, k, sent, stream, by, replies, told, repliedAfterNotice, lost, killed, follow>>)
+
+\* new: which of my listeners does this socket belong to?  All it has is the socket's local address - the concrete address
+\* the client connected to - and the addresses its listeners were written with: the local address itself, then both
+\* wildcards (a dual-stack listener written either way serves both families).
+Local == via        \* "ip4" / "ip6" name the concrete loopback address of that family, as a bind form and as a local address
+Candidates == IF "LookupLocalOnly" \in Defects THEN {Local}
+              ELSE IF "LookupOwnFamilyWildcard" \in Defects THEN {Local, IF Local = "ip4" THEN "any4" ELSE "any6"}
+              ELSE {Local} \cup Wildcards
+Found == bind \in Candidates
+Lookup == /\ owner = "wire"
+          /\ orphan' = ~Found
+          /\ IF ~Found \/ ("NewDropsBuffered" \in Defects /\ rbuf # <<>>)
+               THEN \* no listener (or no connection built): id 0 goes back, the socket stays open in the leaving process
+                    \* and nobody ever reads it again
+                    owner' = "closed" /\ lost' = TRUE /\ stop' = stop
+               ELSE owner' = "new" /\ lost' = lost /\ stop' = "moved"
+          /\ fresh' = FALSE /\ route' = TRUE
+          /\ UNCHANGED <<proto, closeFlag, oldAlive, k, sent, rbuf, stream, by, replies, told, repliedAfterNotice, killed, follow, order, bind, via, release>>
 
 \* the old process leaves when its timers are up; the runs drive it there with nothing in progress
 OldExit == /\ oldAlive /\ stop \in {"seen", "moved"} /\ ~Busy
@@ -142,12 +196,13 @@ OldExit == /\ oldAlive /\ stop \in {"seen", "moved"} /\ ~Busy
            /\ fresh' = FALSE /\ UNCHANGED <<route, order>>
            /\ U(<<proto, stop, closeFlag, k, sent, rbuf, stream, by, replies, told, repliedAfterNotice, lost, follow>>)
 
-Next == Send \/ ClientClose \/ Decode \/ Stop \/ Notice \/ Transfer \/ OldExit \/ \E r \in Reqs : PartReply(r) \/ Reply(r)
+Next == Send \/ ClientClose \/ Decode \/ Stop \/ Notice \/ Transfer \/ Lookup \/ OldExit \/ \E r \in Reqs : PartReply(r) \/ QueueReply(r) \/ Reply(r)
 Spec == Init /\ [][Next]_vars
 
 (* ---- properties *)
-TypeOK == /\ proto \in Protos /\ owner \in {"old", "new", "closed"} /\ stop \in {"no", "called", "seen", "moved"}
+TypeOK == /\ proto \in Protos /\ owner \in {"old", "wire", "new", "closed"} /\ stop \in {"no", "called", "seen", "moved"}
           /\ sent \in 0..ReqLen /\ k \in 1..(MaxReq + 1)
+          /\ bind \in Binds /\ via \in Vias /\ Reaches(bind, via)
 \* the unconsumed bytes are exactly what the client has written of the current request, in order
 BytesIntact == Held => rbuf = SeqTo(sent)
 \* every request written before, during or after the move gets its own answer exactly once
@@ -159,12 +214,14 @@ HandedOver == (Transferable /\ ~oldAlive) => (owner # "closed" \/ follow = "clos
 Released == ~(killed /\ repliedAfterNotice)
 \* requests completed after the move belong to the new process, all others to the old one
 DecodedBy == \A r \in Reqs : by[r] = "new" => (Transferable /\ stop = "moved")
+\* a socket that left the old process belongs to a listener of the new one, however that listener is written and reached
+Adopted == ~orphan
 
 (* ---- case emission: the picture when StopConnection is called *)
 Done == Cardinality({r \in Reqs : stream[r] = "done"})
 CaseOf == [proto |-> proto, done |-> Done, inflight |-> Cardinality(InFlight),
            cut |-> IF sent \in 1..3 THEN sent ELSE 0,
            resp |-> \E r \in Reqs : stream[r] = "part",
-           follow |-> follow, order |-> order]
+           follow |-> follow, order |-> order, bind |-> bind, via |-> via, release |-> release]
 Emit == (EmitCases /\ fresh /\ sent < ReqLen) => PrintT(<<"CASE", ToJson(CaseOf)>>)
 ====
